@@ -281,6 +281,8 @@ def run(chk):
     chk.extra["empty_smaller_argument"] = {"states_built": {k[6:]: v for k, v in sorted(cov.items()) if k.startswith("empty:")},
                                            "status_vectors": len([k for k in cov if k.startswith("emptyflags:")]),
                                            "widenings_with_empty_y": {k[8:]: v for k, v in sorted(cov.items()) if k.startswith("empty-y:")}}
+    chk.extra["stop_point_lists_by_length"] = {k[12:]: v for k, v in sorted(cov.items()) if k.startswith("stop-points:")}
+    chk.extra["limited_token_judgements"] = {k[11:]: v for k, v in sorted(cov.items()) if k.startswith("lim-tokens:")}
     chk.extra["certificates_compared"] = cov.get("cmp", 0)
     chk.extra["multiset_comparisons"] = cov.get("ps", 0)
     chk.extra["families"] = dict(collections.Counter(re.search(r"family=([\w-]+)", c[1]).group(1) for c in cases if len(c) > 1 and "family=" in c[1]))
